@@ -29,6 +29,13 @@ def plan(tier, seed):
     for i, fw in enumerate(("twisted", "asyncio")):
         for sh in range(4 if tier == "quick" else 8):
             jobs.append({"func": "machine", "fw": fw, "name": "machine/%s/%d" % (fw, sh), "args": {"seed": seed * 1000 + i * 100 + sh, "n": n}})
+    # every event sequence up to a bounded length over a reduced alphabet, on a grid of configurations
+    depth = 3 if tier == "quick" else 4
+    for fw in ("twisted", "asyncio"):
+        for server in (True, False):
+            for fbd in (True, False):
+                jobs.append({"func": "short_histories", "fw": fw, "name": "short_histories/%s/%s/%s" % (fw, "server" if server else "client", "fbd" if fbd else "closehs"),
+                             "args": {"server": server, "fbd": fbd, "depth": depth}})
     jobs.append({"func": "truncate", "name": "encode_truncate", "args": {"seed": seed * 1000 + 900, "n": 1500 if tier == "quick" else 20000}})
     return jobs
 
@@ -45,12 +52,19 @@ class Interp:
         opts = {"failByDrop": config["fbd"], "echoCloseCodeReason": config["echo"], "closeHandshakeTimeout": config["close_to"],
                 "openHandshakeTimeout": config["open_to"]}
         self.is_server = config["server"]
+        self.at_close = None        # what had been written / called on the transport at the moment onClose ran
+
+        def on_close(p, *a):
+            if self.at_close is None and getattr(self, "ep", None) is not None:
+                self.at_close = (len(self.ep.t.calls), sum(len(b) for _, b in self.ep.t.written))
         if self.is_server:
-            self.side = wsutil.server(self.d, opts=opts)
+            self.side = wsutil.server(self.d, opts=opts, hooks={"onClose": on_close})
         else:
             opts["serverConnectionDropTimeout"] = config["drop_to"]
-            self.side = wsutil.client(self.d, opts=opts)
+            self.side = wsutil.client(self.d, opts=opts, hooks={"onClose": on_close})
         self.ep = self.side.connect()
+        if config.get("auto_loss"):
+            self.ep.enable_auto_loss()
         self.proto = self.side.proto
         self.d.settle()
         self.handshook = False
@@ -112,7 +126,8 @@ class Interp:
         op = step[0]
         before_out = len(self.out) + len(self.hs_out)
         getattr(self, "do_" + op)(*step[1:])
-        self.d.settle()
+        if not (op == "local_send" and step[1] == "message-sync-held"):     # "-held": the queued write is still pending when the next step happens
+            self.d.settle()
         self._collect()
         self.invariants(step)
 
@@ -165,6 +180,12 @@ class Interp:
         try:
             if kind == "message":
                 self.d.call(p.sendMessage, b"hello", True)
+            elif kind in ("message-sync", "message-sync-held"):
+                # two synchronous sends in a row: the second one (at least) waits in the send queue for the next reactor turn
+                def go():
+                    p.sendMessage(b"first", True, sync=True)
+                    p.sendMessage(b"second", True, sync=True)
+                self.d.call(go)
             elif kind == "ping":
                 self.d.call(p.sendPing, b"pi")
             elif kind == "pong":
@@ -190,9 +211,9 @@ class Interp:
         except Exception as e:
             raised = e
         if state0 != 2:
-            if kind == "message" and not isinstance(raised, Disconnected):
+            if kind in ("message", "message-sync", "message-sync-held") and not isinstance(raised, Disconnected):
                 self.fail("sendMessage-outside-open-did-not-raise-Disconnected", "state %s: raised %r" % (RANK_NAME[state0], raised))
-            if raised is not None and kind != "message" and not isinstance(raised, Disconnected):
+            if raised is not None and kind not in ("message", "message-sync", "message-sync-held") and not isinstance(raised, Disconnected):
                 # the non-message APIs are documented to ignore calls when not open; an exception other than Disconnected is a defect
                 # (streaming-state exceptions can legitimately arise when the connection closed between begin/end: those are sequences we do not generate)
                 self.fail("send-api-raised-outside-open|%s|%s" % (kind, exc_key(raised)), "state %s: %r" % (RANK_NAME[state0], raised))
@@ -358,10 +379,11 @@ class Interp:
             ev = self.side.log[close_events[0]]
             was_clean, code, reason = ev[1], ev[2], ev[3]
             if was_clean:
-                if not closes:
-                    self.fail("clean-close-without-sending-close-frame", repr(ev))
                 def same(a, b):
                     return a[0] == b[0] and (a[1] or None) == (b[1] or None)
+                if not closes and self.valid_peer_closes:
+                    # (without a valid peer close frame the report is wrong whatever we sent: judged below, by root cause)
+                    self.fail("clean-close-without-sending-close-frame", repr(ev))
                 if not self.valid_peer_closes:
                     if self.invalid_peer_closes:
                         self.fail("clean-close-after-only-malformed-peer-close|" + self.invalid_peer_closes[0], "reported %r; peer close frames fed: %r" % (ev, self.invalid_peer_closes))
@@ -379,6 +401,13 @@ class Interp:
                 self.fail("write-after-onClose", "wrote %d bytes after onClose" % (len(self.out) + len(self.hs_out) - self.out_len_at_close))
             if len(self.ep.t.calls) != self.calls_at_close:
                 self.fail("transport-call-after-onClose", repr(self.ep.t.calls[self.calls_at_close:]))
+        if self.at_close is not None:
+            n_calls, n_written = self.at_close
+            late = [c for c in self.ep.t.calls[n_calls:] if c[0] in ("write", "writeSequence", "writelines")]
+            if late:
+                self.fail("write-after-onClose", "transport write calls after onClose had run: %r" % (late,))
+            if sum(len(b) for _, b in self.ep.t.written) != n_written:
+                self.fail("write-after-onClose", "wrote %d bytes after onClose had run" % (sum(len(b) for _, b in self.ep.t.written) - n_written))
         if self.ep.loss_delivered and not close_events:
             self.fail("onClose-missing-after-transport-loss", "transport loss delivered but onClose not fired")
         if self.ep.loss_delivered and self.rank != 4:
@@ -434,7 +463,10 @@ class Interp:
 def config_strategy():
     from hypothesis import strategies as st
     return st.fixed_dictionaries({"server": st.booleans(), "fbd": st.booleans(), "echo": st.booleans(), "close_to": st.sampled_from([0, 0.5, 1, 3]),
-                                  "drop_to": st.sampled_from([0, 1, 2]), "open_to": st.sampled_from([0, 2, 5])})
+                                  "drop_to": st.sampled_from([0, 1, 2]), "open_to": st.sampled_from([0, 2, 5]),
+                                  # True: the loss of a transport the endpoint itself closed / aborted is delivered by the event loop on its next turn, as the
+                                  # real frameworks do (ahead of pending timers and queued writes); False: the history decides when (or whether) it is delivered
+                                  "auto_loss": st.sampled_from([False, False, True])})
 
 
 def make_machine_factory(col):
@@ -468,7 +500,7 @@ def make_machine_factory(col):
             def local_close(self, code, reason):
                 self.ap("local_close", code, reason)
 
-            @rule(kind=st.sampled_from(["message", "ping", "pong", "frames", "stream", "prepared"]))
+            @rule(kind=st.sampled_from(["message", "ping", "pong", "frames", "stream", "prepared", "message-sync", "message-sync-held", "message-sync-held"]))
             def local_send(self, kind):
                 self.ap("local_send", kind)
 
@@ -523,6 +555,34 @@ def make_machine_factory(col):
 
 def machine(col, seed, n):
     run_machine(col, "machine", make_machine_factory(col), n, seed, step_count=14)
+
+
+ALPHABET = [("local_close", 1000, None), ("local_close", 3000, "bye"), ("local_send", "message"), ("local_send", "message-sync-held"), ("local_send", "ping"),
+            ("peer_close", "valid", 1000, ""), ("peer_close", "valid", 3001, "x"), ("peer_close", "badcode", 1005, ""), ("peer_data", "text"), ("peer_data", "violation"),
+            ("advance", "to", 0.0), ("peer_drop", False), ("peer_drop", True), ("deliver_own_drop",), ("peer_bytes_after_drop",)]
+
+
+def short_histories(col, server, fbd, depth):
+    """exhaustive: handshake, then every sequence of `depth` events from ALPHABET, for (auto-loss on/off) x (timeouts off / 1 s); the invariants
+    run after every event and at teardown (which also runs the clock past every applicable deadline)"""
+    import itertools
+    from harness.core import guarded_blocks
+    n_hist = 0
+    grid = [(al, to) for al in (False, True) for to in (0, 1)]
+    for al, to in grid:
+        cfg = {"server": server, "fbd": fbd, "echo": False, "close_to": to, "drop_to": to, "open_to": 0, "auto_loss": al}
+        for seq in guarded_blocks(itertools.product(ALPHABET, repeat=depth), every=512):
+            i = Interp(col, cfg)
+            try:
+                i.apply(("handshake",))
+                for st_ in seq:
+                    i.apply(st_)
+            finally:
+                i.teardown()
+            n_hist += 1
+            col.case(len(i.sources) >= 2, enum=True, cls=["short_histories/%s/%s" % ("server" if server else "client", "auto-loss" if al else "scripted-loss")],
+                     sample={"config": cfg, "steps": [list(x) for x in seq]} if n_hist % 997 == 1 else None)
+    col.exhaustive.append("C05 short_histories %s fbd=%s: %d^%d event sequences x 4 configurations = %d histories" % ("server" if server else "client", fbd, len(ALPHABET), depth, n_hist))
 
 
 def truncate(col, seed, n):
